@@ -21,8 +21,8 @@ def plan(tier, seed):
 
 
 def floors(tier):
-    return {"evaluations": 3000, "strata": ["lower-only", "upper-only", "both-bounds-fit", "both-bounds-unfit", "packing-exact-fit", "packing-slack-fit", "packing-barely-unfit", "packing-gross-unfit", "deeper-layer"],
-            "events": {"Force.compute": 2000, "removeOverlap": 3000}, "distinct_nontrivial": 300}
+    return {"evaluations": 1500, "strata": ["lower-only", "upper-only", "both-bounds-fit", "both-bounds-unfit", "packing-exact-fit", "packing-slack-fit", "packing-barely-unfit", "packing-gross-unfit", "deeper-layer"],
+            "events": {"Force.compute": 1000, "removeOverlap": 1500}, "distinct_nontrivial": 300}
 
 
 def worker(ctx, shard):
